@@ -15,7 +15,7 @@ S_c09b == (0 :> <<P, P>>) @@ (1 :> <<P, O, E>>)
 \* C10: streams with calls pipelined behind them
 S_c10 == (0 :> <<S(2), P>>) @@ (1 :> <<P, S(0), E>>)
 \* C18: a flooder, a single-call client, a client with a stream transition
-S_c18 == (0 :> <<P, P, P>>) @@ (1 :> <<P>>) @@ (2 :> <<S(1), P>>)
+S_c18 == (0 :> <<P, O, P>>) @@ (1 :> <<P>>) @@ (2 :> <<S(1), P>>)
 View == <<lq, conns, streams, lastCall, lastStream, toSend, sock, pend, buffered, out, gone, unwritable, closedC,
           wait, wtot, wtr>>
 =============================================================================
